@@ -32,7 +32,7 @@ PURE = EPS | {
     "core::ops::arith::Mul::mul", "core::ops::arith::Add::add", "core::ops::arith::Sub::sub", "core::ops::arith::Div::div", "core::ops::arith::Rem::rem",
     "core::ops::arith::Neg::neg", N + "nan", N + "zero", N + "one", N + "is_nan", N + "is_pos",
     "number::big_number::BigNum::one", "number::big_number::BigNum::zero", "number::big_number::BigNum::new", "number::big_number::BigNum::gcd",
-    "number::big_number::BigNum::is_pos", "number::big_number::BigNum::is_zero", "core::cmp::PartialEq::eq", "core::cmp::PartialOrd::lt",
+    "number::big_number::BigNum::is_pos", "number::big_number::BigNum::is_zero", "core::cmp::PartialEq::eq", "core::cmp::PartialEq::ne", "core::cmp::PartialOrd::lt",
     "core::fmt::rt::Argument::new_display", "std::fmt::Arguments::new", "std::fmt::Arguments::from_str", "core::cmp::PartialOrd::partial_cmp",
 }
 
@@ -190,7 +190,7 @@ def rule_display(ctx, R):
     if not R.anchor(b is not None, name, "Display for Num"):
         return
     R.analyse(name)
-    E = "BR[PartialEq::eq(P1.down,BigNum::one())]"
+    E = "BR[PartialEq::eq(BigNum::one(),P1.down)]"  # canonical (sorted) operand order, see interp.generic_edge
     nan = "Formatter::write_fmt(P2,Arguments::from_str(K'너무 커엇...'))"
     i = "Formatter::write_fmt(P2,Arguments::new(Kb'\\xc0\\x00',array{Argument::new_display(P1.up)}))"
     fr = "Formatter::write_fmt(P2,Arguments::new(Kb'\\xc0\\x01/\\xc0\\x00',array{Argument::new_display(P1.up),Argument::new_display(P1.down)}))"
